@@ -641,7 +641,8 @@ Definition spec_step (fl : flavour) (st : store) (sp : spec_state) (c : cmd) (r 
       | Closed => (Some R_COUNT, sp, st)
       | Auth =>
           let enter u :=
-            (chk (r_ok r && is_single r) R_STATUS,
+            (chk (r_ok r && is_single r &&
+                  reply_eqb_nums r [Z.of_nat (length (mmsgs (get_box st u)))]) R_STATUS,
              {| sp_phase := Trans; sp_user := u; sp_pending_user := u;
                 sp_snap := mmsgs (get_box st u); sp_marked := [] |}, st) in
           match n, args with
@@ -668,12 +669,16 @@ Definition spec_step (fl : flavour) (st : store) (sp : spec_state) (c : cmd) (r 
                     else Some R_STATUS)
           | LIST, [] =>
               same (match r_ok r, r_body r with
-                    | true, BList rows => chk (rowsN_eqb rows (spec_list sp)) R_LIST
+                    | true, BList rows =>
+                        chk (rowsN_eqb rows (spec_list sp) &&
+                             reply_eqb_nums r [Z.of_nat (length (spec_list sp))]) R_LIST
                     | _, _ => Some R_STATUS
                     end)
           | UIDL, [] =>
               same (match r_ok r, r_body r with
-                    | true, BUidl rows => chk (rowsS_eqb rows (spec_uidl sp)) R_UIDL
+                    | true, BUidl rows =>
+                        chk (rowsS_eqb rows (spec_uidl sp) &&
+                             reply_eqb_nums r [Z.of_nat (length (spec_uidl sp))]) R_UIDL
                     | _, _ => Some R_STATUS
                     end)
           | LIST, [a] =>
